@@ -53,10 +53,50 @@ class C07(common.Prop):
                     a["end_frame"] = a["start_frame"]
                 yield {"file": data, "cuts": cuts, "src": kind, "args": a, "prime": prime, "F": F,
                        "suffix": [rng.randrange(256) for _ in range(rng.choice([1, 3, 40]))]}
+        for c in self.wide_cases(rng, tier):
+            yield c
+
+    def wide_cases(self, rng, tier):
+        """files whose frame window spans several KB of the confidence block (a reader that treats large tensor reads
+        differently from small ones - direct reads, chunked reads - is only exercised by these); cuts concentrate on the
+        boundaries and the inside of the window's data and confidence bytes"""
+        for i in range(1 if tier == "quick" else 6):
+            D = rng.choice([2, 2, 3])
+            T = rng.choice([60, 90, 137])
+            P = 1
+            F = rng.choice([24, 32, 40]) if T == 60 else rng.choice([14, 18])
+            comps = [{"name": pg.cps("c0"), "format": pg.cps("XYZW"[:D] + "C"), "points": [pg.cps("p%d" % k) for k in range(T)],
+                      "limbs": [[0, 1]], "colors": [[1, 2, 3]]}]
+            n = F * P * T * D
+            pose = {"dims": [640, 480, 0], "comps": comps, "fps": pg.b64(25.0), "shape": [F, P, T, D], "cshape": [F, P, T], "dtype": "f32",
+                    "edge": "none", "data": [pg.b64(float(k % 16000000)) for k in range(n)],
+                    "conf": [pg.b64(0.0 if (k % 7 == 3) else float(1 + k % 5)) for k in range(F * P * T)]}
+            w = pg.impl_write(pose)
+            if w[0] != "ok":
+                continue
+            data = w[1]
+            size = len(data)
+            per_d, per_c = P * T * D * 4, P * T * 4
+            ds = size - F * (per_d + per_c)
+            cs = ds + F * per_d
+            lo = rng.randrange(0, 4)
+            hi = F - rng.randrange(0, 3)          # (hi - lo) * per_c >= 4096 by construction of F and T
+            marks = [ds, cs, ds + lo * per_d, ds + hi * per_d, cs + lo * per_c, cs + hi * per_c, size]
+            cuts = set(range(0, size, max(1, size // 120)))
+            for m in marks:
+                cuts.update(x for x in range(m - 6, m + 7) if 0 <= x < size)
+            for (a, b) in ((ds + lo * per_d, ds + hi * per_d), (cs + lo * per_c, cs + hi * per_c)):
+                cuts.update(rng.randrange(a, b) for _ in range(90))
+            cuts = sorted(cuts)
+            for kind, args, prime in (("stream", {"start_frame": lo, "end_frame": hi}, False),
+                                      ("stream", {"start_frame": lo, "end_frame": hi}, True),
+                                      ("stream", {"start_frame": lo}, rng.random() < 0.5)):
+                yield {"file": data, "cuts": cuts, "src": kind, "args": dict(args), "prime": prime, "F": F, "wide": True,
+                       "suffix": [rng.randrange(256) for _ in range(rng.choice([1, 3, 40]))]}
 
     def features(self, case):
         return (case["src"], "window" if case["args"] else "full", "primed" if case["prime"] else "empty",
-                "small" if len(case["file"]) <= 1500 else "large")
+                "wide-window" if case.get("wide") else "small" if len(case["file"]) <= 1500 else "large")
 
     def nontrivial(self, case):
         return len(case["cuts"]) > 20
